@@ -125,7 +125,7 @@ func c15Reopen(r *rep.Reporter) {
 				var got s3obs
 				if o.Kind == "put" {
 					// carry metadata so that its persistence is observable
-					ct, mw := c02Meta([]byte(o.Body)) // what the model-based read comparison expects
+					ct, mw := c02Meta([]byte(o.Body), "") // what the model-based read comparison expects
 					resp := s.Put(o.B, o.K, []byte(o.Body), drv.H("Content-Type", ct, "x-amz-meta-w", mw, "x-amz-meta-step", fmt.Sprint(i), "Content-Disposition", "inline"))
 					got = s3obs{Status: resp.Status, Code: resp.ErrCode(), ETag: resp.ETag()}
 					if resp.Panic != nil {
